@@ -244,7 +244,7 @@ def run(ctx):
         for p in (path,):
             os.remove(p)
 
-    for i in range(ctx.share(ctx.pick(160, 5000))):
+    for i in range(ctx.share(ctx.pick(480, 6000))):
         ctx.run_case(one, {"seed": rng.randrange(2 ** 40)})
 
     # realistic inputs: the repository's BAM files: library vs R2 decoder
